@@ -27,6 +27,7 @@ package api
 import (
 	"bytes"
 	"fmt"
+	"net"
 	"net/http"
 	"net/http/httptest"
 	"os"
@@ -41,7 +42,6 @@ import (
 
 	"github.com/go-chi/chi/v5"
 	"github.com/go-chi/chi/v5/middleware"
-	"github.com/phayes/freeport"
 	yaml "gopkg.in/yaml.v2"
 	"pgregory.net/rapid"
 
@@ -192,8 +192,54 @@ type vfAPIMember struct {
 	handler http.Handler
 }
 
+// vfPorts picks n TCP ports on 127.0.0.1 below the ephemeral range, spread by pid (so that the
+// OS-assigned ports of concurrently running tests cannot collide with them).
+var vfPortCursor int
+
+func vfPorts(n int) ([]int, error) {
+	const lo, span = 10000, 22000
+	var out []int
+	for tries := 0; len(out) < n && tries < 4000; tries++ {
+		vfPortCursor++
+		p := lo + (os.Getpid()*131+vfPortCursor*37)%span
+		ln, err := net.Listen("tcp", fmt.Sprintf("127.0.0.1:%d", p))
+		if err != nil {
+			continue
+		}
+		ln.Close()
+		out = append(out, p)
+	}
+	if len(out) < n {
+		return nil, fmt.Errorf("no free ports found")
+	}
+	return out, nil
+}
+
+// vfNewCluster runs cluster.New with a watchdog: New retries forever when the server cannot start.
+func vfNewCluster(t *testing.T, opt *option.Options) cluster.Cluster {
+	type res struct {
+		c   cluster.Cluster
+		err error
+	}
+	ch := make(chan res, 1)
+	go func() {
+		c, err := cluster.New(opt)
+		ch <- res{c, err}
+	}()
+	select {
+	case r := <-ch:
+		if r.err != nil {
+			t.Fatalf("VF-INCONCLUSIVE cluster.New(%s): %v", opt.Name, r.err)
+		}
+		return r.c
+	case <-time.After(3 * time.Minute):
+		t.Fatalf("VF-INCONCLUSIVE cluster.New(%s) did not return within 3 minutes", opt.Name)
+	}
+	return nil
+}
+
 func vfOptions(t *testing.T, dir, name, role string, peerURL string) *option.Options {
-	ports, err := freeport.GetFreePorts(3)
+	ports, err := vfPorts(3)
 	if err != nil {
 		t.Fatalf("VF-INCONCLUSIVE no free ports: %v", err)
 	}
@@ -262,21 +308,12 @@ func vfStartAPIBed(t *testing.T) *vfAPIBed {
 	vfRegisterKinds()
 	dir := t.TempDir()
 	popt := vfOptions(t, dir, "vf-primary", "primary", "")
-	pcls, err := cluster.New(popt)
-	if err != nil {
-		t.Fatalf("VF-INCONCLUSIVE cluster.New: %v", err)
-	}
+	pcls := vfNewCluster(t, popt)
 	peer := popt.Cluster.ListenPeerURLs[0]
 	sopt := vfOptions(t, dir, "vf-secondary", "secondary", peer)
-	scls, err := cluster.New(sopt)
-	if err != nil {
-		t.Fatalf("VF-INCONCLUSIVE cluster.New(secondary): %v", err)
-	}
+	scls := vfNewCluster(t, sopt)
 	oopt := vfOptions(t, dir, "vf-observer", "secondary", peer)
-	ocls, err := cluster.New(oopt)
-	if err != nil {
-		t.Fatalf("VF-INCONCLUSIVE cluster.New(observer): %v", err)
-	}
+	ocls := vfNewCluster(t, oopt)
 	// the secondary's Server first, the primary's last: the global API registry then belongs to
 	// the primary, whose real dynamic mux is used
 	ssuper := supervisor.MustNew(sopt, scls)
